@@ -73,6 +73,17 @@ def shard(job):
             out["fail"] = {"_crash": True, "_rc": rc, "_args": base, "_stderr": se[-2000:]}
             break
         kind = classify(rc, se)
+        if kind == "hang":
+            # re-run the one case alone with a six-fold budget before calling it a hang (a loaded machine can starve a shard)
+            try:
+                r2 = subprocess.run([exe] + [str(a) for a in base] + ["--only", str(case), "--budget", str(30 if "--long" not in base else 720)],
+                                    capture_output=True, text=True, env=env, timeout=900, errors="replace")
+                if r2.returncode == 0:
+                    out["slow_under_load"] = out.get("slow_under_load", 0) + 1
+                    start = case + 1
+                    continue
+            except subprocess.TimeoutExpired:
+                pass
         viols.append({"key": "%s:%s" % (dom, kind),
                       "what": "%s input #%d (%d bytes, begins %r) makes the library fail: %s" % (dom, case, tlen, text[:60].decode("utf-8", "replace"), kind),
                       "replay": {"args": [str(a) for a in base], "only": case, "kind": kind, "text_prefix_hex": text.hex(), "stderr_tail": se[-1500:]}})
